@@ -6,7 +6,8 @@
    false, NumericLiteral, RegularExpressionLiteral, ParenthesizedExpression),
    MemberExpression "." IdentifierName, UpdateExpression (prefix and postfix
    ++/--, operand must be a simple assignment target), UnaryExpression
-   (delete void typeof + - ~ !), ExponentiationExpression (left operand must be
+   (delete void typeof + - ~ ! and, the grammar being taken with the parameter [+Await], await),
+   ExponentiationExpression (left operand must be
    an UpdateExpression: "-a ** b" is not derivable), Multiplicative ... BitwiseOR,
    LogicalAND/OR, ConditionalExpression (the test is a ShortCircuitExpression, the branches are
    AssignmentExpressions), MemberExpression "[" Expression "]", CoalesceExpression (its operands are BitwiseOR expressions or
@@ -31,7 +32,7 @@ Definition spec_level (o : op) : Z :=
   | BAdd | BSub => 15
   | BMul | BDiv | BRem => 16
   | BPow => 17
-  | UPos | UNeg | UCpl | UNot | UVoid | UTypeof | UDelete | UPreDec | UPreInc => 18
+  | UPos | UNeg | UCpl | UNot | UVoid | UTypeof | UDelete | UPreDec | UPreInc | UAwait => 18
   | UPostDec | UPostInc => 19
   end.
 Definition S_Unary := 18. Definition S_Update := 19. Definition S_Member := 22.
